@@ -24,14 +24,17 @@ Matches(r) == Strict =>
 Adopt == [Cur EXCEPT !.acct = Ev.st.acct, !.gm = Ev.st.gm, !.gc = Ev.st.gc,
                      !.gmj = IF Ev.st.gmj = "?" THEN @ ELSE Ev.st.gmj = "y",
                      !.cs = [c \in CKnown |-> IF Ev.st.cs[c] = "?" THEN @[c] ELSE Ev.st.cs[c]]]
-RpcExplained == /\ Req \in AllShapes(Ev.rpc) /\ Ev.out \in Outs(Ev.rpc, Req)
-                /\ Matches(After(Ev.rpc, Req, Ev.out))
+RpcCut == Ev.via = "grpc" /\ Ev.out = "cut"     \* the driver's gRPC client ended an open-ended stream
+RpcExplained == \/ RpcCut /\ Req \in AllShapes(Ev.rpc) /\ Matches(Cur)
+                \/ /\ Req \in AllShapes(Ev.rpc) /\ Ev.out \in Outs(Ev.rpc, Req)
+                   /\ Matches(After(Ev.rpc, Req, Ev.out))
 HelperExplained == Ev.c \in HelperCls(Ev.fn) /\ Ev.out \in HOuts(Ev.fn, Ev.c)
 
 TReset == /\ Consume("reset")
           /\ acct' = TRUE /\ gm' = TRUE /\ gc' = TRUE /\ gmj' = TRUE /\ cs' = InitCS /\ odd' = "none"
           /\ res' = "ok"
-TRpc == Consume("rpc") /\ RpcExplained /\ Call(Ev.rpc, Req, Ev.out)
+TRpc == /\ Consume("rpc") /\ RpcExplained
+        /\ IF RpcCut THEN UNCHANGED vars ELSE Call(Ev.rpc, Req, Ev.out)
 THelper == Consume("helper") /\ HelperExplained /\ Help(Ev.fn, Ev.c, Ev.out)
 TDrift == /\ Collect /\ l <= Len(TraceLog)
           /\ \/ Ev.ev = "rpc" /\ ~RpcExplained /\ Set(Adopt)
